@@ -190,22 +190,34 @@ def decomposition(ctx):
     f = repo.func(SOLN, "Solution.field_at_position")
     loops = [n for n in own_nodes(f.node) if isinstance(n, ast.For) and isinstance(n.iter, (ast.Tuple, ast.List))]
     names = [e.value for l in loops for e in l.iter.elts if isinstance(e, ast.Constant)]
-    rets = [norm(n.value) for n in own_nodes(f.node) if isinstance(n, ast.Return)]
-    ok = names == ["supercurrent_density", "normal_current_density"] and "sum(fields)" in rets and "fields" in rets \
-        and any(norm(n) == "fields = BiotSavartField(*fields)" for n in own_nodes(f.node) if isinstance(n, ast.Assign))
+    from ..src import rename_id
+    # the accumulator by role: the list appended to inside the loop over the two current components
+    accs = {n.func.value.id for l in loops for n in ast.walk(l) if isinstance(n, ast.Call) and isinstance(n.func, ast.Attribute)
+            and n.func.attr == "append" and isinstance(n.func.value, ast.Name)}
+    acc = next(iter(accs)) if len(accs) == 1 else "?"
+    rets = [rename_id(norm(n.value), acc, "ACC") for n in own_nodes(f.node) if isinstance(n, ast.Return)]
+    ok = names == ["supercurrent_density", "normal_current_density"] and "sum(ACC)" in rets and "ACC" in rets \
+        and any(rename_id(norm(n), acc, "ACC") == "ACC = BiotSavartField(*ACC)" for n in own_nodes(f.node) if isinstance(n, ast.Assign))
     ctx.ob("R20.5", "field_at_position: sum == supercurrent part + normal part; return_sum=False returns the parts", ok,
            detail={"parts": names, "returns": rets}, where=f.fq, construct="field decomposition", loc=loc(f, f.node),
            message=f"parts {names}, returns {rets}", consequence="the total field omits or double counts a current component")
     f = repo.func(SOLN, "Solution.vector_potential_at_position")
+    # the table by role: the local initialised to {} and returned
+    tabs = [n.targets[0].id for n in own_nodes(f.node) if isinstance(n, ast.Assign) and isinstance(n.targets[0], ast.Name)
+            and isinstance(n.value, ast.Dict) and not n.value.keys
+            and any(isinstance(r, ast.Return) and norm(r.value) == n.targets[0].id for r in own_nodes(f.node))]
+    tab = tabs[0] if len(tabs) == 1 else "?"
+    loops = [n for n in own_nodes(f.node) if isinstance(n, ast.For) and isinstance(n.iter, (ast.Tuple, ast.List))]
+    lvars = {norm(l.target) for l in loops}
     keys = []
     for n in own_nodes(f.node):
-        if isinstance(n, ast.Assign) and isinstance(n.targets[0], ast.Subscript) and norm(n.targets[0].value) == "vector_potentials":
-            keys.append(norm(n.targets[0].slice))
-    loops = [n for n in own_nodes(f.node) if isinstance(n, ast.For) and isinstance(n.iter, (ast.Tuple, ast.List))]
+        if isinstance(n, ast.Assign) and isinstance(n.targets[0], ast.Subscript) and norm(n.targets[0].value) == tab:
+            k = norm(n.targets[0].slice)
+            keys.append("<loop variable>" if k in lvars else k)
     names = [e.value for l in loops for e in l.iter.elts if isinstance(e, ast.Constant)]
-    rets = [norm(n.value) for n in own_nodes(f.node) if isinstance(n, ast.Return)]
-    ok = sorted(keys) == ["'applied'", "name"] and names == ["supercurrent_density", "normal_current_density"] \
-        and "sum(vector_potentials.values())" in rets and "vector_potentials" in rets
+    rets = [rename_id(norm(n.value), tab, "TAB") for n in own_nodes(f.node) if isinstance(n, ast.Return)]
+    ok = sorted(keys) == ["'applied'", "<loop variable>"] and names == ["supercurrent_density", "normal_current_density"] \
+        and "sum(TAB.values())" in rets and "TAB" in rets
     ctx.ob("R20.5", "vector_potential_at_position: sum == applied + supercurrent + normal parts", ok,
            detail={"keys": keys, "parts": names, "returns": rets}, where=f.fq, construct="potential decomposition",
            loc=loc(f, f.node), message=f"keys {keys}, parts {names}", consequence="the total potential omits a part")
